@@ -37,6 +37,9 @@ pub fn path_str(ty: &str) -> String {
 
 /// Recover counterpart info from the trait instructions of an item.
 pub fn analyze(item: &Item) -> Vec<Cp> {
+    // trait-level repeat copies ..update / return onto later instructions: look at the written-out form
+    let (item, _) = crate::gen_repeat::write_out(item);
+    let item = &item;
     let mut cps: Vec<Cp> = vec![];
     for tr in item.trait_instrs() {
         let f = tr.fallible() as usize;
@@ -87,6 +90,12 @@ fn is_plain_struct_field(f: &FieldDef) -> bool {
 
 pub const N_CLASSES: usize = 22;
 
+/// Name of a counterpart no trait instruction mentions; the variants differ only in letter case so that two
+/// simultaneous faults yield diagnostics that differ only in case.
+fn unknown_ty(t: &mut Tape) -> String {
+    t.pick(&["Zed", "Zed", "ZED", "zed", "ZeD"]).to_string()
+}
+
 /// Fault classes whose expected diagnostics are context-dependent; pairs that would change each other's
 /// context are not generated (the property quantifies over pairs of *simultaneous misuses*, not over one
 /// misuse that repairs or masks another).
@@ -95,7 +104,7 @@ fn compatible(a: &str, b: &str) -> bool {
     let member_level = |c: &str| {
         matches!(
             c,
-            "unknown-dedicated-field" | "unknown-dedicated-variant" | "misnamed-on-member" | "struct-instr-on-member" | "unknown-instr-member" | "unsupported-on-field" | "parent-on-variant" | "ghost-without-default" | "child-without-child-parents" | "tuple-member-without-name" | "tuple-variant-member-without-name" | "untyped-nested-parent" | "unnamed-parent-child" | "permeate-on-struct-field" | "unknown-member-repeat-category" | "member-repeat-unterminated"
+            "unknown-dedicated-field" | "unknown-dedicated-variant" | "unknown-dedicated-variant-field" | "misnamed-on-member" | "struct-instr-on-member" | "unknown-instr-member" | "unsupported-on-field" | "parent-on-variant" | "ghost-without-default" | "child-without-child-parents" | "tuple-member-without-name" | "tuple-variant-member-without-name" | "untyped-nested-parent" | "unnamed-parent-child" | "permeate-on-struct-field" | "unknown-member-repeat-category" | "member-repeat-unterminated"
         ) || c.starts_with("duplicate-member-")
     };
     let exclusive = |c: &str| matches!(c, "tuple-member-without-name" | "tuple-variant-member-without-name" | "permeate-on-struct-field" | "member-repeat-unterminated");
@@ -159,27 +168,29 @@ pub fn inject(t: &mut Tape, item: &mut Item, class: usize) -> Option<Expected> {
         }
         4 => {
             // 5: type-level instruction dedicated to an unknown counterpart
+            let zed = unknown_ty(t);
             let ins = match t.below(3) {
-                0 => Instr::Ghosts { name: "ghosts".into(), ded: Some("Zed".into()), entries: vec![GhostEntry { child_path: None, ident: if is_enum { "Zv".into() } else { "zg".into() }, action: "{ 1 }".into() }] },
-                1 if !is_enum => Instr::ChildParents { ded: Some("Zed".into()), entries: vec![("zk".into(), "Zk".into(), None)] },
-                _ => Instr::Where { ded: Some("Zed".into()), preds: "T: Clone".into() },
+                0 => Instr::Ghosts { name: "ghosts".into(), ded: Some(zed.clone()), entries: vec![GhostEntry { child_path: None, ident: if is_enum { "Zv".into() } else { "zg".into() }, action: "{ 1 }".into() }] },
+                1 if !is_enum => Instr::ChildParents { ded: Some(zed.clone()), entries: vec![("zk".into(), "Zk".into(), None)] },
+                _ => Instr::Where { ded: Some(zed.clone()), preds: "T: Clone".into() },
             };
             let (a, _) = spell_one(t, ins);
             insert_at(t, &mut item.attrs, a);
-            Some(Expected { class: "unknown-dedicated-type-level".into(), messages: vec!["Type 'Zed' doesn't match any type specified in trait instructions.".into()], parse_stage: false })
+            Some(Expected { class: "unknown-dedicated-type-level".into(), messages: vec![format!("Type '{}' doesn't match any type specified in trait instructions.", zed)], parse_stage: false })
         }
         5 => {
-            // 5: member-level instruction dedicated to an unknown counterpart
-            let msg = "Type 'Zed' doesn't match any type specified in trait instructions.".to_string();
+            // 5: member-level instruction dedicated to an unknown counterpart (struct field, variant, or payload field)
+            let zed = unknown_ty(t);
+            let msg = format!("Type '{}' doesn't match any type specified in trait instructions.", zed);
             match &mut item.body {
                 Body::Struct(_, fields) if !fields.is_empty() => {
                     let n = fields.len();
                     let f = &mut fields[t.below(n)];
                     let ins = match t.below(4) {
-                        0 => Instr::Member(MemberInstr { name: t.pick(&["map", "from", "into", "try_map", "ref_into_existing"]).to_string(), ded: Some("Zed".into()), member: Some("zz".into()), action: None }),
-                        1 => Instr::Ghost { name: "ghost".into(), ded: Some("Zed".into()), action: Some("{ 1 }".into()) },
-                        2 => Instr::Child { ded: Some("Zed".into()), path: "zk".into() },
-                        _ => Instr::Parent { ded: Some("Zed".into()), fields: Some(vec![ParentField { attrs: vec![], nested: None, member: "zp".into(), ty: None }]) },
+                        0 => Instr::Member(MemberInstr { name: t.pick(&["map", "from", "into", "try_map", "ref_into_existing"]).to_string(), ded: Some(zed.clone()), member: Some("zz".into()), action: None }),
+                        1 => Instr::Ghost { name: "ghost".into(), ded: Some(zed.clone()), action: Some("{ 1 }".into()) },
+                        2 => Instr::Child { ded: Some(zed.clone()), path: "zk".into() },
+                        _ => Instr::Parent { ded: Some(zed.clone()), fields: Some(vec![ParentField { attrs: vec![], nested: None, member: "zp".into(), ty: None }]) },
                     };
                     let (a, _) = spell_one(t, ins);
                     insert_at(t, &mut f.attrs, a);
@@ -188,12 +199,24 @@ pub fn inject(t: &mut Tape, item: &mut Item, class: usize) -> Option<Expected> {
                 Body::Enum(vs) if !vs.is_empty() => {
                     let n = vs.len();
                     let v = &mut vs[t.below(n)];
+                    if !v.fields.is_empty() && t.coin() {
+                        // payload field of a tuple or named variant
+                        let nf = v.fields.len();
+                        let f = &mut v.fields[t.below(nf)];
+                        let ins = match t.below(2) {
+                            0 => Instr::Member(MemberInstr { name: t.pick(&["map", "from", "into", "try_map"]).to_string(), ded: Some(zed.clone()), member: Some("zz".into()), action: None }),
+                            _ => Instr::Ghost { name: "ghost".into(), ded: Some(zed.clone()), action: Some("{ 1 }".into()) },
+                        };
+                        let (a, _) = spell_one(t, ins);
+                        insert_at(t, &mut f.attrs, a);
+                        return Some(Expected { class: "unknown-dedicated-variant-field".into(), messages: vec![msg], parse_stage: false });
+                    }
                     let ins = match t.below(5) {
-                        0 => Instr::Member(MemberInstr { name: t.pick(&["map", "from", "into", "try_map"]).to_string(), ded: Some("Zed".into()), member: Some("Zz".into()), action: None }),
-                        1 => Instr::Ghost { name: "ghost".into(), ded: Some("Zed".into()), action: Some("{ todo!() }".into()) },
-                        2 => Instr::Literal { ded: Some("Zed".into()), tokens: "1".into() },
-                        3 => Instr::Pattern { ded: Some("Zed".into()), tokens: "_".into() },
-                        _ => Instr::TypeHint { ded: Some("Zed".into()), hint: Hint::Struct },
+                        0 => Instr::Member(MemberInstr { name: t.pick(&["map", "from", "into", "try_map"]).to_string(), ded: Some(zed.clone()), member: Some("Zz".into()), action: None }),
+                        1 => Instr::Ghost { name: "ghost".into(), ded: Some(zed.clone()), action: Some("{ todo!() }".into()) },
+                        2 => Instr::Literal { ded: Some(zed.clone()), tokens: "1".into() },
+                        3 => Instr::Pattern { ded: Some(zed.clone()), tokens: "_".into() },
+                        _ => Instr::TypeHint { ded: Some(zed.clone()), hint: Hint::Struct },
                     };
                     let (a, _) = spell_one(t, ins);
                     insert_at(t, &mut v.attrs, a);
@@ -493,11 +516,14 @@ pub fn inject(t: &mut Tape, item: &mut Item, class: usize) -> Option<Expected> {
             let tr = t.pick(&trs).clone();
             let fall = tr.fallible();
             let mk = |ty: &str, params: Vec<TParam>| Instr::Trait(TraitInstr { name: tr.name.clone(), ty: ty.into(), hint: None, err: if fall { Some("E".into()) } else { None }, params });
-            let (instrs, msg): (Vec<Instr>, &str) = match t.below(4) {
+            let (instrs, msg): (Vec<Instr>, &str) = match t.below(7) {
                 0 => (vec![mk("Zr1", vec![TParam::Repeat(vec![]), TParam::Vars(vec![("zv".into(), "1".into())])]), mk("Zr2", vec![TParam::Repeat(vec![]), TParam::Vars(vec![("zw".into(), "2".into())])])], "Previous repeat() instruction must be terminated with 'stop_repeat'"),
                 1 => (vec![mk("Zr1", vec![TParam::Repeat(vec!["vars".into()]), TParam::Vars(vec![("zv".into(), "1".into())])]), mk("Zr2", vec![TParam::Vars(vec![("zw".into(), "2".into())])])], "Vars will be overriden. Did you forget to use 'skip_repeat'?"),
                 2 => (vec![mk("Zr1", vec![TParam::Vars(vec![("zv".into(), "1".into())]), TParam::Vars(vec![("zw".into(), "2".into())])])], "Instruction parameter 'vars' was already set."),
-                _ => (vec![mk("Zr1", vec![TParam::Repeat(vec!["bogus".into()]), TParam::Vars(vec![("zv".into(), "1".into())])])], "#[repeat] of instruction type 'bogus' is not supported. Supported types are: vars, update, quick_return, default_case"),
+                3 => (vec![mk("Zr1", vec![TParam::Repeat(vec!["bogus".into()]), TParam::Vars(vec![("zv".into(), "1".into())])])], "#[repeat] of instruction type 'bogus' is not supported. Supported types are: vars, update, quick_return, default_case"),
+                4 => (vec![mk("Zr1", vec![TParam::Repeat(vec!["update".into()]), TParam::Update("Default::default()".into())]), mk("Zr2", vec![TParam::Update("upd()".into())])], "Update statement will be overriden. Did you forget to use 'skip_repeat'?"),
+                5 => (vec![mk("Zr1", vec![TParam::Repeat(vec!["quick_return".into()]), TParam::Return("make(@)".into())]), mk("Zr2", vec![TParam::Return("make2(@)".into())])], "Quick Return statement will be overriden. Did you forget to use 'skip_repeat'?"),
+                _ => (vec![mk("Zr1", vec![TParam::Repeat(vec!["default_case".into()]), TParam::DefaultCase("todo!()".into())]), mk("Zr2", vec![TParam::DefaultCase("panic!()".into())])], "Default Case statement will be overriden. Did you forget to use 'skip_repeat'?"),
             };
             // appended after the existing trait instructions so that the base's own instructions are unaffected
             for i in instrs {
@@ -660,6 +686,26 @@ impl Part for Faults {
     fn run_case(&self, tape: &[u16], ctx: &Ctx) -> CaseReport {
         let mut t = Tape::new(tape);
         let (mut item, mut labels) = gen_item(&mut t, &base_opts());
+        if t.chance(1, 6) {
+            // still valid: a repeated parameter of one category and a follower that owns a parameter of another category
+            let trs: Vec<TraitInstr> = item.trait_instrs().into_iter().cloned().collect();
+            // (Into-only instruction names: extra From kinds would make a default-less #[ghost] of the base invalid)
+            if let Some(tr) = trs.iter().find(|x| !x.kinds().iter().any(|k| *k == FO || *k == FR)).cloned() {
+                let fall = tr.fallible();
+                let mk = |ty: &str, params: Vec<TParam>| Attr::bare(Instr::Trait(TraitInstr { name: tr.name.clone(), ty: ty.into(), hint: None, err: if fall { Some("E".into()) } else { None }, params }));
+                let (carrier, follower): (Vec<TParam>, Vec<TParam>) = match t.below(4) {
+                    0 => (vec![TParam::Repeat(vec!["update".into()]), TParam::Update("Default::default()".into())], vec![TParam::DefaultCase("todo!()".into())]),
+                    1 => (vec![TParam::Repeat(vec!["vars".into()]), TParam::Vars(vec![("zv".into(), "1".into())])], vec![TParam::Update("upd()".into())]),
+                    2 => (vec![TParam::Repeat(vec!["default_case".into()]), TParam::DefaultCase("todo!()".into())], vec![TParam::Vars(vec![("zw".into(), "2".into())]), TParam::Return("make(@)".into())]),
+                    _ => (vec![TParam::Repeat(vec!["quick_return".into()]), TParam::Return("make(@)".into())], vec![TParam::Vars(vec![("zw".into(), "2".into())])]),
+                };
+                item.attrs.push(mk("Zq1", carrier));
+                item.attrs.push(mk("Zq2", follower));
+                // terminate the block so that later instructions of the same name are unaffected
+                item.attrs.push(mk("Zq3", vec![TParam::StopRepeat]));
+                labels.push("valid-trait-repeat-pair".into());
+            }
+        }
         let base_text = item.render();
         let base_instrs = item.count_instrs();
         let nf = t.weighted(&[1, 2, 1]);
